@@ -18,6 +18,50 @@ type Type struct {
 	Basic   string     `json:"basic,omitempty"`   // basic: int, string, bool, float64, ...
 	Fields  []LitField `json:"fields,omitempty"`  // structlit
 	Methods []string   `json:"methods,omitempty"` // ifacelit: method names, each `func() int`
+	// Sp selects an alternative spelling of the same type (identity, and so
+	// TypeString/Key, do not depend on it): byte for uint8, rune for int32,
+	// any for interface{}, a named result for a function type.
+	Sp int `json:"sp,omitempty"`
+}
+
+// Respell returns a copy of t in which every component that has an
+// alternative spelling uses it, and whether anything changed.  Named types
+// and their arguments are left alone.
+func Respell(t *Type) (*Type, bool) {
+	if t == nil {
+		return nil, false
+	}
+	c := *t
+	changed := false
+	switch t.K {
+	case "basic":
+		if (t.Basic == "uint8" || t.Basic == "int32") && t.Sp == 0 {
+			c.Sp, changed = 1, true
+		}
+	case "ifacelit":
+		if len(t.Methods) == 0 && t.Sp == 0 {
+			c.Sp, changed = 1, true
+		}
+	case "func":
+		if t.Elem != nil {
+			e, _ := Respell(t.Elem)
+			c.Elem = e
+			if t.Sp == 0 {
+				c.Sp, changed = 1, true
+			}
+		}
+	case "ptr", "slice", "array", "map", "chan":
+		e, ch := Respell(t.Elem)
+		c.Elem, changed = e, ch
+	case "structlit":
+		c.Fields = nil
+		for _, f := range t.Fields {
+			e, ch := Respell(f.T)
+			changed = changed || ch
+			c.Fields = append(c.Fields, LitField{Name: f.Name, T: e})
+		}
+	}
+	return &c, changed
 }
 
 // LitField is a field of an unnamed struct type.
@@ -55,14 +99,14 @@ type Method struct {
 }
 
 // Constructors.
-func Named(d int) *Type        { return &Type{K: "named", Decl: d} }
-func Ptr(e *Type) *Type        { return &Type{K: "ptr", Elem: e} }
-func Slice(e *Type) *Type      { return &Type{K: "slice", Elem: e} }
-func Array(n int, e *Type) *Type { return &Type{K: "array", N: n, Elem: e} }
-func Map(e *Type) *Type        { return &Type{K: "map", Elem: e} }
+func Named(d int) *Type           { return &Type{K: "named", Decl: d} }
+func Ptr(e *Type) *Type           { return &Type{K: "ptr", Elem: e} }
+func Slice(e *Type) *Type         { return &Type{K: "slice", Elem: e} }
+func Array(n int, e *Type) *Type  { return &Type{K: "array", N: n, Elem: e} }
+func Map(e *Type) *Type           { return &Type{K: "map", Elem: e} }
 func Chan(dir int, e *Type) *Type { return &Type{K: "chan", N: dir, Elem: e} }
-func Func(e *Type) *Type       { return &Type{K: "func", Elem: e} }
-func Basic(name string) *Type  { return &Type{K: "basic", Basic: name} }
+func Func(e *Type) *Type          { return &Type{K: "func", Elem: e} }
+func Basic(name string) *Type     { return &Type{K: "basic", Basic: name} }
 
 // Pkg is one package of a generated program.
 type Pkg struct {
@@ -203,6 +247,9 @@ func GoType(c typeCtx, t *Type, from int, use func(pkg int) string) string {
 		if t.Elem == nil {
 			return "func()"
 		}
+		if t.Sp == 1 {
+			return "func() (zzres " + GoType(c, t.Elem, from, use) + ")"
+		}
 		return "func() " + GoType(c, t.Elem, from, use)
 	case "structlit":
 		var fs []string
@@ -211,12 +258,23 @@ func GoType(c typeCtx, t *Type, from int, use func(pkg int) string) string {
 		}
 		return "struct{ " + strings.Join(fs, "; ") + " }"
 	case "ifacelit":
+		if len(t.Methods) == 0 && t.Sp == 1 {
+			return "any"
+		}
 		var ms []string
 		for _, m := range t.Methods {
 			ms = append(ms, m+"() int")
 		}
 		return "interface{ " + strings.Join(ms, "; ") + " }"
 	case "basic", "tparam":
+		if t.Sp == 1 {
+			switch t.Basic {
+			case "uint8":
+				return "byte"
+			case "int32":
+				return "rune"
+			}
+		}
 		return t.Basic
 	case "unsafe":
 		return use(-1) + ".Pointer"
